@@ -33,6 +33,11 @@ def run(v):
             if f is None:
                 raise ToolError("deviation class %s is not an open finding" % k)
             v.known(f["id"], "%s: %s (%d cases of this run inside the class; for the flat families the unread bit count is predicted exactly)" % (f["id"], f["what"], cnt))
+    # ---- T: the reader's per-call events on every cross-version message are a behaviour of the reader machine with the
+    # deviation switches of the open findings (Impl(Dev)): what is skipped, what stays unread, where every call ends
+    dev = vlib.dev_set("C05", ["NoSkipUnknownAdditions"])
+    uperlib.uper_trace(v, "C05", exe, vec, zoo, names, domain="uptrace_read", module="Trace_UperRead",
+                       cfg=uperlib.TRACE_CFG.replace("POSTCONDITION", "  Dev = %s\nPOSTCONDITION" % tla_set(dev)))
     v.cov["replay_stats"] = st
     v.cov["traces_validated_against_impl"] += summ["cases"]
     v.cov["evaluations"] += summ["cases"]
@@ -44,12 +49,14 @@ def run(v):
                      "component and as a list element. Every ordered (writer version, reader version) pair x every value of the writer version "
                      "(all presence patterns x addition payloads of %s octets, i.e. every interesting first length octet). Expected value = "
                      "Versions!Conv; a sentinel INTEGER(0..7) written behind the message in the same stream must be read back with nothing "
-                     "remaining. Non-trivial = cross-version cases." % (amax, sizes))
+                     "remaining. Non-trivial = cross-version cases. T: the per-call events of the real reader on every cross-version message "
+                     "of <= 400 bits (tracing wrapper) are validated by Trace_UperRead.tla with Dev = the open findings: every call ends at "
+                     "the bit position the reader machine predicts (what is skipped, what stays unread)." % (amax, sizes))
     v.cov["samples"] = vlib.sample_ndjson(vec, 4, v.seed, lambda r: r["tw"] != r["tr"] and len(r["bits"]) < 300)
     for s in v.cov["samples"]:
         s["writer_schema"] = names.get("T%d" % s["tw"])
         s["reader_schema"] = names.get("T%d" % s["tr"])
-    v.cov["checker_cmd"] = "tlc MC_Versions; tools/zoogen.py; cargo build (zoo_ver); vzoo versions"
+    v.cov["checker_cmd"] = "tlc MC_Versions; tools/zoogen.py; cargo build (zoo_ver); vzoo versions; vzoo uptrace_read + tlc Trace_UperRead"
     v.assumptions += ["k <= %d appended additions per family in this tier" % amax,
                       "the open finding NoSkipUnknownAdditions is modelled exactly for the flat families (value right, predicted number of "
                       "unread bits) and as 'any deviation' where the unread bits corrupt following root components"]
